@@ -310,6 +310,23 @@ def buffer_tables(prog, chk):
                 inst = "KSI_TLV_writeBytes[nested children %d+%d bytes,buffer=%d,%s]" % (L0, L1, B, "in place" if opt else "moved to front")
                 judge(inst, fw, I, I.run(), B, need, hdr, 0, moved=(None if opt else "loop"), outkey=("*" + wn[3],))
 
+    # ---- tlv.c: nested element whose list is present but empty (every child removed): the payload is empty, whatever the element held as raw
+    # value before it was made nested
+    for stale in (0, 7):
+        hdr = ref_header(5, 0, 0, 0)
+        need = len(hdr)
+        for B in (0, 1, 2, 3, 9, 12):
+            for opt in (0, NOMOVE):
+                length, element_at = list_overrides({"NL": []})
+                inputs = {wn[0]: Ptr("T"), wn[1]: Ptr("BUF"), wn[2]: B, wn[3]: Ptr("OUT"), wn[4]: opt, "T->ctx": Ptr("ctx"), "T->nested": Ptr("NL"),
+                          "T->tag": 5, "T->isNonCritical": 0, "T->isForwardable": 0, "T->datap_len": stale, "T->datap": Ptr("STALE")}
+                ov2 = dict(ov)
+                ov2.update({"KSI_TLVList_length": length, "KSI_TLVList_elementAt": element_at})
+                I = BufInterp(fw, {"BUF": B}, inputs=inputs, call_model=inline_model(prog, helpers, fallback=succeed_model(prog, ov2)),
+                              on_unknown="stop", prog=prog, loop_bound=need + 4)
+                inst = "KSI_TLV_writeBytes[nested, no children left, %d octets of earlier raw value,buffer=%d,%s]" % (stale, B, "in place" if opt else "moved to front")
+                judge(inst, fw, I, I.run(), B, need, hdr, 0, moved=(None if opt else "loop"), outkey=("*" + wn[3],))
+
     # ---- tlv_element.c: raw element
     fe = prog.fn("KSI_TlvElement_serialize", "tlv_element.c")
     en = [p["n"] for p in fe.params]
